@@ -1,0 +1,197 @@
+//go:build verif
+// +build verif
+
+package logical
+
+import (
+	"errors"
+	"time"
+
+	"com.tuntun.rangers/node/src/common"
+	"com.tuntun.rangers/node/src/consensus/groupsig"
+	"com.tuntun.rangers/node/src/consensus/model"
+	"com.tuntun.rangers/node/src/core"
+	"com.tuntun.rangers/node/src/middleware"
+	"com.tuntun.rangers/node/src/middleware/log"
+	"com.tuntun.rangers/node/src/middleware/types"
+)
+
+// Life-cycle part of the C15 hook: the party is created by the REAL
+// Processor.loadOrNewSignParty (isNew = true, as OnMessageCast does) under its
+// pre-change key, so the REAL Processor.waitUntilDone goroutine reaps it
+// (error / done / 10 s timeout) and performs the changeId step. The hook only
+// stands in for round0.Update's verdict on the proposal (Accept / Reject).
+
+// VerifC15NewLife creates the Processor only; verify messages can be delivered with
+// P.OnMessageVerify from here on (no party yet: they go to Processor.futureMessages).
+func VerifC15NewLife(chain core.BlockChain, group *model.GroupInfo, preBH, bh *types.BlockHeader,
+	mi groupsig.ID, logger log.Logger, key0 []byte) *VerifC15Round {
+	v := &VerifC15Round{}
+	p := &Processor{}
+	p.partyManager = make(map[string]Party, 10)
+	p.partyLock = middleware.NewLoglock("partyLock")
+	p.logger = logger
+	p.finishedParty = common.CreateLRUCache(300)
+	p.futureMessages = common.CreateLRUCache(50)
+	p.MainChain = &verifC15Chain{BlockChain: chain, v: v}
+	p.mi = &model.SelfMinerInfo{}
+	p.mi.ID = mi
+	v.P = p
+	v.life = &verifC15Life{group: group, preBH: preBH, bh: bh, key0: common.ToHex(key0), key0b: key0}
+	return v
+}
+
+// Cast does what OnMessageCast does before it hands the message to the party:
+// loadOrNewSignParty(key, ccm, true), which creates the party in round0 under its
+// pre-change key and starts the real waitUntilDone goroutine for it.
+func (v *VerifC15Round) Cast() bool {
+	party := v.P.loadOrNewSignParty(v.life.key0b, nil, true)
+	if party == nil {
+		return false
+	}
+	sp := party.(*SignParty)
+	v.Party, v.r0 = sp, sp.rnd.(*round0)
+	return true
+}
+
+// HasParty reports whether Cast created a party.
+func (v *VerifC15Round) HasParty() bool { return v.Party != nil }
+
+type verifC15Life struct {
+	group     *model.GroupInfo
+	preBH, bh *types.BlockHeader
+	key0      string
+	key0b     []byte
+}
+
+// StartReaper starts the real Processor.waitUntilDone for a party built by
+// VerifC15NewRound (VerifC15NewLife parties already have one).
+func (v *VerifC15Round) StartReaper() {
+	go v.P.waitUntilDone(v.Party)
+}
+
+// Accept stands in for a proposal that passed every check of round0.Update /
+// afterPreArrived / checkBlock with no lost transactions: it sets the fields
+// those functions set and performs checkBlock's last three statements
+// (changedId <- hash; partyId = hash; canProcessed = true). inUpdate = true is
+// the path inside baseParty.Update(ccm) (the advance loop runs at once: a
+// message round0 rejects as processed drives the same loop); false is the path
+// from a chain notification (onBlockAddSuccess / onMissTxAddSucc), which does
+// not advance the party. It then waits until the real reaper has re-registered
+// the party under the block hash.
+func (v *VerifC15Round) Accept(inUpdate bool, ccmID string) bool {
+	l := v.life
+	v.Party.lock()
+	r0 := v.r0
+	r0.processed[ccmID] = 1
+	r0.processed[verifC15Kick] = 1
+	r0.bh = l.bh
+	r0.preBH = l.preBH
+	r0.group = l.group
+	r0.isSend = false
+	hashString := l.bh.Hash.String()
+	if !inUpdate {
+		r0.changedId <- hashString
+	}
+	r0.partyId = hashString
+	r0.canProcessed = true
+	v.Party.unlock()
+	if inUpdate {
+		// inside baseParty.Update(ccm) the party lock is held from checkBlock to the end of the
+		// advance loop, so nothing the reaper starts on changedId can run before round1.Start has
+		// returned: sending after the loop is the same schedule
+		v.Party.Update(&model.ConsensusVerifyMessage{Id: verifC15Kick})
+		r0.changedId <- hashString
+	}
+	return v.waitFor(func() bool {
+		v.P.partyLock.RLock("verif")
+		defer v.P.partyLock.RUnlock("verif")
+		p, ok := v.P.partyManager[hashString]
+		return ok && p == Party(v.Party) && !v.P.futureMessages.Contains(hashString)
+	})
+}
+
+// Reject stands in for round0.Update returning an error for the proposal:
+// baseParty.Update forwards it on the party's Err channel.
+func (v *VerifC15Round) Reject(ccmID string) {
+	v.Party.lock()
+	v.r0.processed[ccmID] = 1
+	v.Party.Err <- NewError(errors.New("verif: proposal rejected by round0"), "ccm", 0, "", nil)
+	v.Party.unlock()
+}
+
+func (v *VerifC15Round) waitFor(cond func() bool) bool {
+	deadline := time.Now().Add(8 * time.Second)
+	for time.Now().Before(deadline) {
+		if cond() {
+			return true
+		}
+		time.Sleep(100 * time.Microsecond)
+	}
+	return false
+}
+
+// WaitReaped blocks until the real reaper has removed the party (after an
+// error, completion or its timeout) or d has passed.
+func (v *VerifC15Round) WaitReaped(d time.Duration) bool {
+	deadline := time.Now().Add(d)
+	for time.Now().Before(deadline) {
+		v.P.partyLock.RLock("verif")
+		id := v.Party.id
+		_, in := v.P.partyManager[id]
+		fin := v.P.finishedParty.Contains(id)
+		v.P.partyLock.RUnlock("verif")
+		if !in && fin {
+			return true
+		}
+		time.Sleep(100 * time.Microsecond)
+	}
+	return false
+}
+
+// WaitSenders blocks until each of the given ids is a key of gSignGenerator,
+// the party has no round left, or d has passed (used after the reaper handed
+// stored processor-level messages to the party on goroutines of its own).
+func (v *VerifC15Round) WaitSenders(idsHex []string, d time.Duration) bool {
+	return v.waitFor(func() bool {
+		v.Party.lock()
+		defer v.Party.unlock()
+		var g *groupSignGenerator
+		switch r := v.Party.rnd.(type) {
+		case *round1:
+			g = r.gSignGenerator
+		case *round2:
+			g = r.gSignGenerator
+		case nil:
+			return true
+		}
+		if g == nil {
+			return false
+		}
+		for _, id := range idsHex {
+			if _, ok := g.witnessSignMap[id]; !ok {
+				return false
+			}
+		}
+		return true
+	})
+}
+
+// Key0Done reports whether the pre-change key is in finishedParty (set by the changeId step).
+func (v *VerifC15Round) Key0Done() bool {
+	if v.life == nil {
+		return false
+	}
+	return v.P.finishedParty.Contains(v.life.key0)
+}
+
+// InRound0 reports (in round0, canProcessed) for a party that has not advanced yet.
+func (v *VerifC15Round) InRound0() (bool, bool) {
+	v.Party.lock()
+	defer v.Party.unlock()
+	r, ok := v.Party.rnd.(*round0)
+	if !ok {
+		return false, false
+	}
+	return true, r.canProcessed
+}
